@@ -164,6 +164,7 @@ pub fn gen_c06(rng: &mut Rng, caseid: u64, unix: bool, bound_ms: u64) -> (ConvCa
     // `Connection: close`); the client waits for all the responses and only then leaves. An
     // answer that is left sitting in a buffer until the connection is torn down shows here.
     let keep_open = !last_upgrade && rng.chance(1, 4);
+    let mut upgrade_reads = false;
     for i in 0..n {
         let last = i + 1 == n;
         let bkind = rng.below(5);
@@ -214,7 +215,10 @@ pub fn gen_c06(rng: &mut Rng, caseid: u64, unix: bool, bound_ms: u64) -> (ConvCa
         }
         let broken_here = last && !upgrade_here && !keep_open && rng.chance(1, 12);
         let finish = if upgrade_here {
-            Finish::Upgrade { read: false, write: 0 }
+            // half of them: the handler keeps the upgraded stream and reads from it until the
+            // client is done (the usual pattern); the client waits for the 101 before it goes on
+            upgrade_reads = rng.chance(1, 2);
+            Finish::Upgrade { read: upgrade_reads, write: 0 }
         } else if broken_here {
             let body_len = *rng.pick(&[100usize, 3000, 20000]);
             Finish::RespondBrokenBody { declared: rng.chance(1, 2), body_len, fail_after: rng.below(body_len), panic: rng.chance(1, 2) }
@@ -268,6 +272,13 @@ pub fn gen_c06(rng: &mut Rng, caseid: u64, unix: bool, bound_ms: u64) -> (ConvCa
     let withhold = last_streamed_unread && !keep_open && rng.chance(1, 2);
     let mut case = p.finish(rng, "pipeline", unix, &[], false, bound_ms);
     case.script = segmented_script(rng, &case, false);
+    if upgrade_reads {
+        let nresp = case.exp_responses.len();
+        case.script.pop(); // AwaitEnd
+        case.script.push(Step::AwaitFinals(nresp));
+        case.script.push(Step::HalfClose);
+        case.script.push(Step::AwaitEnd);
+    }
     if keep_open {
         case.exp_eof = false;
         let nresp = case.exp_responses.len();
@@ -299,7 +310,7 @@ pub fn gen_c06(rng: &mut Rng, caseid: u64, unix: bool, bound_ms: u64) -> (ConvCa
         Sched::Gate { .. } => "gate",
     };
     case.sched = sched;
-    let sig = format!("n{}|{:?}|{}|nfd{}|wh{}|ko{}", n, kinds, sl, nonfirst_dropped, withhold, keep_open);
+    let sig = format!("n{}|{:?}|{}|nfd{}|wh{}|ko{}|ur{}", n, kinds, sl, nonfirst_dropped, withhold, keep_open, upgrade_reads);
     (case, Some(sig))
 }
 
